@@ -25,82 +25,77 @@ EXPLANATION = (
 ENUMERATION = 'uses of the resolved-location variable, stores of urlFn, ordered steps of the include loop, handler scopes, url_file_relative branches, E6 include scenarios, CLI options'
 
 
-def include_branch(chk):
-    mod, func, loop, key_var, sections, chain = statement_dispatch(chk.repo, 'C17.R')
-    stmts = sections.get('include')
-    if stmts is None:
-        raise Unrecognised('C17.R', "no 'include' branch in the statement dispatch", mod.rel)
-    fors = [s for s in stmts if isinstance(s, ast.For) and norm(s.iter).endswith("['include']['includes']")]
-    if len(fors) != 1:
-        raise Unrecognised('C17.O', 'the loop over the includes list was not found', mod.rel)
-    return mod, func, stmts, fors[0]
+def include_scenarios():
+    """(rule, description, model, options, fetch behaviour, scripts, warnings, limit)"""
+    HF, HU, HL = Sym('hostfn', 'fetch'), Sym('hostfn', 'urlfn'), Sym('hostfn', 'log')
+    two = [{'include': {'includes': [{'url': 'a.bare'}, {'url': 'b.bare', 'system': True}]}}, {'expr': {'expr': Sym('e', 'after')}}]
+    one = [{'include': {'includes': [{'url': 'a.bare'}]}}]
+    sys1 = [{'include': {'includes': [{'url': 'lib.bare', 'system': True}]}}]
+    nested = {"'a.bare'": {'statements': [{'expr': {'expr': Sym('e', 'a#0')}}, {'include': {'includes': [{'url': 'sub/c.bare'}]}}, {'expr': {'expr': Sym('e', 'a#2')}}]}}
+    nested_r = {"resolved('a.bare')": nested["'a.bare'"]}
+    deep = dict(nested)
+    deep["rel('a.bare', 'sub/c.bare')"] = {'statements': [{'include': {'includes': [{'url': 'd.bare'}, {'url': 'e.bare', 'system': True}]}}]}
+    out = [
+        ('C17.R', 'plain + system include with systemPrefix, urlFn and fetchFn', two, {'systemPrefix': 'SP', 'urlFn': HU, 'fetchFn': HF}, {}, {}, {}, 50),
+        ('C17.R', 'system include WITHOUT systemPrefix falls back to urlFn', two, {'urlFn': HU, 'fetchFn': HF}, {}, {}, {}, 50),
+        ('C17.R', 'system include with systemPrefix None falls back to urlFn', two, {'systemPrefix': None, 'urlFn': HU, 'fetchFn': HF}, {}, {}, {}, 50),
+        ('C17.R', 'no urlFn and no systemPrefix: the location is used unchanged', two, {'fetchFn': HF}, {}, {}, {}, 50),
+        ('C17.R', 'systemPrefix only: plain include unchanged, system include relative to the prefix', two, {'systemPrefix': 'SP', 'fetchFn': HF}, {}, {}, {}, 50),
+        ('C17.O', 'an include inside an included script resolves against the resolved location of its includer (no top-level urlFn)', one, {'fetchFn': HF}, {}, nested, {}, 50),
+        ('C17.O', 'an include inside an included script resolves against the resolved location of its includer (host urlFn at top level)', one, {'urlFn': HU, 'fetchFn': HF}, {}, nested_r, {}, 50),
+        ('C17.O', 'three levels, system include below the top level', one, {'systemPrefix': 'SP', 'fetchFn': HF}, {}, deep, {}, 50),
+        ('C17.F', 'no fetchFn configured', one, {}, {}, {}, {}, 50),
+        ('C17.F', 'fetchFn raises', one, {'fetchFn': HF}, {"'a.bare'": 'raise'}, {}, {}, 50),
+        ('C17.F', 'fetchFn returns null', one, {'fetchFn': HF, 'urlFn': HU}, {"resolved('a.bare')": 'none'}, {}, {}, 50),
+        ('C17.F', 'fetch of a system include fails', sys1, {'fetchFn': HF, 'systemPrefix': 'SP'}, {"rel('SP', 'lib.bare')": 'raise'}, {}, {}, 50),
+        ('C17.F', 'syntax error in the included text', one, {'fetchFn': HF, 'urlFn': HU}, {}, {"resolved('a.bare')": 'syntax-error'}, {}, 50),
+        ('C17.F', 'syntax error in a text included by an included script names the broken file only', one, {'fetchFn': HF}, {}, dict(nested, **{"rel('a.bare', 'sub/c.bare')": 'syntax-error'}), {}, 50),
+        ('C17.F', 'fetch failure two levels down names the deepest location', one, {'fetchFn': HF}, {"rel('a.bare', 'sub/c.bare')": 'none'}, nested, {}, 50),
+        ('C17.O', 'debug + logFn: the included script is linted, warnings are logged (header + one line each)', two, {'fetchFn': HF, 'logFn': HL, 'debug': True}, {}, {}, {"'a.bare'": ['w1', 'w2']}, 50),
+        ('C17.O', 'debug without logFn / logFn without debug: no lint', two, {'fetchFn': HF, 'debug': True}, {}, {}, {"'a.bare'": ['w1']}, 50),
+        ('C17.O', 'logFn without debug: no lint', two, {'fetchFn': HF, 'logFn': HL}, {}, {}, {"'a.bare'": ['w1']}, 50),
+        ('C17.G', 'statement limit reached inside an included script aborts the run; the count is carried back', one, {'fetchFn': HF}, {}, nested, {}, 3),
+        ('C17.G', 'statement limit reached right after an include', two, {'fetchFn': HF}, {}, {}, {}, 3),
+    ]
+    return out
 
 
-def check_resolution(chk):
-    mod, func, stmts, loop = include_branch(chk)
-    inc = loop.target.id
-    body = loop.body
-    opt = func.args.args[1].arg
-    # U: the variable assigned from include['url']
-    first = [s for s in body if isinstance(s, ast.Assign) and norm(s.value) == f"{inc}['url']"]
-    if len(first) != 1 or not isinstance(first[0].targets[0], ast.Name):
-        raise Unrecognised('C17.R', "assignment from include['url'] not found", mod.rel)
-    U0 = first[0].targets[0].id
-    U = U0
-    # resolution chain
-    res = [s for s in body if isinstance(s, ast.If) and any(isinstance(x, ast.Assign) and 'url_file_relative' in norm(x.value) for x in s.body)]
-    if len(res) != 1:
-        raise Unrecognised('C17.R', 'resolution conditional (system prefix / urlFn) not found', mod.rel)
-    chain = if_chain(res[0])
-    sp = next((k for k in _local_defs(func) if _local_defs(func)[k] == f"{opt}.get('systemPrefix')"), None)
-    uf = next((k for k in _local_defs(func) if _local_defs(func)[k] == f"{opt}.get('urlFn')"), None)
-    if len(chain) not in (2, 3) or chain[1][0] is None or any(len(bd) != 1 or not isinstance(bd[0], ast.Assign) or not isinstance(bd[0].targets[0], ast.Name) for _t, bd in chain) \
-            or (len(chain) == 3 and chain[2][0] is not None):
-        raise Unrecognised('C17.R', 'resolution conditional is not `if system & prefix: U = ...  elif urlFn: U = ... [else: U = url]`', mod.rel)
-    t0, b0 = chain[0]
-    t1, b1 = chain[1]
-    targets = {bd[0].targets[0].id for _t, bd in chain}
-    if len(targets) != 1:
-        raise Unrecognised('C17.R', f'the resolution branches assign different variables {sorted(targets)}', mod.rel)
-    U = targets.pop()
-    srcs = {U0} | ({U} if (U == U0 or any(isinstance(x, ast.Assign) and norm(x.targets[0]) == U and norm(x.value) == U0 for x in body)) else set())
-    if len(chain) == 2 and U not in srcs:
-        raise Unrecognised('C17.R', f'{U} is not initialised from the include url when neither resolution applies', mod.rel)
-    shape = ("'system'" in norm(t0) and sp is not None and sp in norm(t0) and isinstance(b0[0].value, ast.Call) and call_name(b0[0].value) == 'url_file_relative'
-             and uf is not None and norm(t1) == f'{uf} is not None' and isinstance(b1[0].value, ast.Call) and norm(b1[0].value.func) == uf)
-    if not shape:
-        raise Unrecognised('C17.R', f'resolution conditional has an unrecognised shape: {norm(t0)[:60]} / {norm(t1)[:40]}', mod.rel)
-    a0 = [norm(x) for x in b0[0].value.args]
-    a1 = [norm(x) for x in b1[0].value.args]
-    ok = len(a0) == 2 and a0[0] == sp and a0[1] in srcs and len(a1) == 1 and a1[0] in srcs and (len(chain) == 2 or norm(chain[2][1][0].value) in srcs)
-    if ok:
-        chk.ok('C17.R', f'resolution: system include & prefix -> url_file_relative(prefix, {U}); else urlFn -> urlFn({U}); else unchanged; result stays in {U}')
-    else:
-        chk.bad('C17.R', mod, func.name, norm(res[0].test)[:100],
-                'an include must be resolved as: system include with a system prefix -> against the prefix; otherwise through the configured urlFn (the including file); otherwise unchanged - '
-                'and the result must be kept in the one location variable', node=res[0])
-    # uses of the resolved location
-    fetch = [n for s in body for n in ast.walk(s) if isinstance(n, ast.Call) and isinstance(n.func, ast.Name) and 'fetch' in n.func.id.lower()]
-    if len(fetch) == 1 and norm(fetch[0].args[0]) == f"{{'url': {U}}}":
-        chk.ok('C17.R', f'fetchFn receives the resolved location: {norm(fetch[0])}')
-    else:
-        chk.bad('C17.R', mod, func.name, '; '.join(norm(f)[:60] for f in fetch) or 'no fetch', f"the text must be fetched from the resolved location ({{'url': {U}}})", node=fetch[0] if fetch else loop)
-    parts = [n for s in body for n in ast.walk(s) if isinstance(n, ast.Call) and (call_name(n) or '').endswith('partial') and n.args and norm(n.args[0]) == 'url_file_relative']
-    if len(parts) == 1 and len(parts[0].args) == 2 and norm(parts[0].args[1]) == U:
-        chk.ok('C17.R', f'the nested run resolves against the resolved location of this include: {norm(parts[0])}')
-    else:
-        chk.bad('C17.R', mod, func.name, '; '.join(norm(p)[:80] for p in parts) or 'no re-based urlFn',
-                f'the included script\'s own includes must resolve against the RESOLVED location of the file that contains them (partial(url_file_relative, {U})); an unresolved or other path makes '
-                f'nested relative includes load from the wrong directory', node=parts[0] if parts else loop)
-    msgs = [n for s in body for n in ast.walk(s) if isinstance(n, ast.JoinedStr) and any(w in norm(n) for w in ('Include', 'failed', 'from'))]
-    for m in msgs:
-        names = {v.value.id for v in m.values if isinstance(v, ast.FormattedValue) and isinstance(v.value, ast.Name)}
-        others = {x for x in names if x != U and ('url' in x.lower())}
-        if U in names and not others:
-            chk.ok('C17.F', f'message names the resolved location: {norm(m)[:60]}')
-        elif others or ('url' in norm(m).lower() and U not in names):
-            chk.bad('C17.F', mod, func.name, norm(m)[:80], f'an include diagnostic must name the resolved location {U}', node=m)
-    return U
+def check_include_sim(chk):
+    """C17.R / O / G / F / I by abstract execution of the include branch (E6s)"""
+    from .. import stepsim
+    mod = chk.repo.module('runtime')
+    func = mod.func('_execute_script_helper', 'C17.R')
+    it = stepsim.IncludeInterp(chk.repo, mod, 'C17.R')
+    n = 0
+    for rule, desc, model, opts, fetch, scripts, warnings, limit in include_scenarios():
+        it.fetch, it.scripts, it.warnings = fetch, scripts, warnings
+        got = it.run_include(func, model, opts, limit)
+        want = stepsim.include_reference(model, opts, fetch, scripts, warnings, limit)
+        diff = stepsim.include_compare(got, want)
+        n += 1
+        if diff is not None and sum(1 for f in chk.findings if f.rule.startswith('C17.') and 'abstract execution' in f.what) >= 3:
+            continue
+        if diff is None:
+            chk.ok(rule, f'{desc}: resolution, fetch, parse, lint, nested execution (options copy re-based on the resolved location, same globals, global scope), '
+                   f'diagnostics and statement count agree with the documented semantics (E6s)')
+        else:
+            r = 'C17.I' if 'includer\'s own options' in diff else 'C17.G' if 'locals frame' in diff else rule
+            chk.bad(r, mod, func.name, f'include scenario: {desc}', f'abstract execution of the include statement ({desc}): {diff}')
+    # an include statement inside a function body still runs the included script in global scope
+    it.fetch, it.scripts, it.warnings = {}, {}, {}
+    locals_ = it.prepare('function', 50)
+    it.parsed, it.keep = {}, []
+    it.options.d.update({'fetchFn': Sym('hostfn', 'fetch')})
+    it.schedule = [True]
+    try:
+        it.call_function(func, [stepsim.build([{'include': {'includes': [{'url': 'a.bare'}]}}, {'expr': {'expr': Sym('e', 'in-function')}}]), it.options, locals_], func)
+        scopes = [(e[1], e[2]) for e in it.events if e[0] == 'eval']
+        if scopes == [("'a.bare'#0", 'globals'), ('in-function', 'locals')]:
+            chk.ok('C17.G', 'an include statement executed inside a function body runs the included script in global scope; the function continues with its locals')
+        else:
+            chk.bad('C17.G', mod, func.name, f'include inside a function: scopes {scopes}', f'an included script must run in global scope also when the include statement sits in a function body; observed {scopes}')
+    except stepsim.RaiseSig as sig:
+        chk.bad('C17.G', mod, func.name, f'include inside a function raises {sig.cls}', f'an include statement inside a function body raises {sig.cls}{sig.args_!r}')
 
 
 def _local_defs(func):
@@ -137,86 +132,6 @@ def check_isolation(chk):
                                 chk.bad('C17.I', mod, cur.name if cur is not None else '<module>', norm(node)[:100], f'urlFn is stored into {base}, which is not a copy of the options', node=node)
     if n == 0:
         raise Unrecognised('C17.I', 'no store of urlFn found (the nested run is not re-based?)', None)
-
-
-def check_order(chk, U):
-    mod, func, stmts, loop = include_branch(chk)
-    body = loop.body
-
-    def pos(pred):
-        out = [i for i, s in enumerate(body) if any(pred(n) for n in ast.walk(s))]
-        return out
-    p_res = pos(lambda n: isinstance(n, ast.Call) and call_name(n) == 'url_file_relative' and not isinstance(getattr(n, '_parent', None), ast.Call))
-    p_fetch = pos(lambda n: isinstance(n, ast.Call) and isinstance(n.func, ast.Name) and 'fetch' in n.func.id.lower())
-    p_parse = pos(lambda n: isinstance(n, ast.Call) and call_name(n) == 'parse_script')
-    p_lint = pos(lambda n: isinstance(n, ast.Call) and call_name(n) == 'lint_script')
-    p_exec = pos(lambda n: isinstance(n, ast.Call) and call_name(n) == '_execute_script_helper')
-    seq = [p_res, p_fetch, p_parse, p_lint, p_exec]
-    if all(len(p) == 1 for p in seq) and [p[0] for p in seq] == sorted(p[0] for p in seq) and len({p[0] for p in seq}) == 5:
-        chk.ok('C17.O', 'per include, in list order: resolve -> fetch -> parse -> lint (debug) -> execute, each exactly once')
-    else:
-        chk.bad('C17.O', mod, func.name, f'step positions {[p for p in seq]}', 'each include must be resolved, fetched, parsed, (linted) and executed exactly once, in that order, before the next one', node=loop)
-    # nested execution: plain call, result discarded, locals None
-    calls = [n for s in body for n in ast.walk(s) if isinstance(n, ast.Call) and call_name(n) == '_execute_script_helper']
-    if len(calls) == 1:
-        par = getattr(calls[0], '_parent', None)
-        if isinstance(par, ast.Expr):
-            chk.ok('C17.O', 'the nested execution is a plain call whose result is discarded (a return inside the included script ends only that script)')
-        else:
-            chk.bad('C17.O', mod, func.name, norm(par)[:100], 'the result of the nested execution must be discarded: returning it makes a return inside an included script end the includer', node=calls[0])
-        if len(calls[0].args) >= 3 and isinstance(calls[0].args[2], ast.Constant) and calls[0].args[2].value is None:
-            chk.ok('C17.G', 'the included script runs in global scope (locals None), also when the include statement sits inside a function')
-        else:
-            chk.bad('C17.G', mod, func.name, norm(calls[0])[:100], 'an included script must run in global scope (locals None)', node=calls[0])
-        if norm(calls[0].args[0]).endswith("['statements']") and not norm(calls[0].args[0]).startswith('statement'):
-            chk.ok('C17.O', f'executes the parsed include: {norm(calls[0].args[0])}')
-    # the loop iterates the list in order
-    if norm(loop.iter).endswith("['include']['includes']"):
-        chk.ok('C17.O', 'includes are processed in list order')
-
-
-def check_failures(chk, U):
-    mod, func, stmts, loop = include_branch(chk)
-    body = loop.body
-    # fetch under catch-all -> None -> runtime error
-    tries = [s for s in body if isinstance(s, ast.Try)]
-    fetch_try = next((t for t in tries if any(isinstance(n, ast.Call) and isinstance(n.func, ast.Name) and 'fetch' in n.func.id.lower() for n in ast.walk(t))), None)
-    parse_try = next((t for t in tries if any(isinstance(n, ast.Call) and call_name(n) == 'parse_script' for s in t.body for n in ast.walk(s))), None)
-    if fetch_try is None:
-        chk.bad('C17.F', mod, func.name, 'fetch not under try', 'a throwing fetch function must be turned into the include-failure runtime error', node=loop)
-    else:
-        h = fetch_try.handlers
-        catch_all = len(h) >= 1 and (h[0].type is None or norm(h[0].type) in ('Exception', 'BaseException'))
-        raises = [s for s in body if isinstance(s, ast.If) and any(isinstance(x, ast.Raise) and 'BareScriptRuntimeError' in norm(x) for x in s.body)]
-        good = catch_all and len(raises) == 1 and norm(raises[0].test).endswith('is None') and f'{{{U}}}' in norm(raises[0].body[0])
-        if good:
-            chk.ok('C17.F', f'fetchFn raising or returning None -> BareScriptRuntimeError naming {U}')
-        else:
-            chk.bad('C17.F', mod, func.name, 'fetch failure handling', f'a location that cannot be fetched (exception or None) must raise BareScriptRuntimeError naming the resolved location {U}', node=fetch_try)
-    if parse_try is None:
-        chk.bad('C17.F', mod, func.name, 'parse not under try', 'a syntax error in an included text must be re-raised as a parser error that names the location', node=loop)
-        return
-    only_parse = len(parse_try.body) == 1 and isinstance(parse_try.body[0], ast.Assign) and isinstance(parse_try.body[0].value, ast.Call) and call_name(parse_try.body[0].value) == 'parse_script'
-    hs = [h for h in parse_try.handlers if h.type is not None and 'BareScriptParserError' in norm(h.type)]
-    if not hs:
-        chk.bad('C17.F', mod, func.name, 'no BareScriptParserError handler', 'a syntax error in an included text must be re-raised as a parser error naming the location', node=parse_try)
-        return
-    rr = [s for s in hs[0].body if isinstance(s, ast.Raise) and isinstance(s.exc, ast.Call) and call_name(s.exc) == 'BareScriptParserError']
-    e = hs[0].name
-    good_args = False
-    if len(rr) == 1 and len(rr[0].exc.args) == 5:
-        a = [norm(x) for x in rr[0].exc.args]
-        good_args = a[:4] == [f'{e}.error', f'{e}.line', f'{e}.column_number', f'{e}.line_number'] and f'{{{U}}}' in a[4]
-    if good_args:
-        chk.ok('C17.F', f'parser error of the included text re-raised with error/line/column/line number and a prefix naming {U}')
-    else:
-        chk.bad('C17.F', mod, func.name, norm(rr[0])[:120] if rr else 'no re-raise', f'the re-raised parser error must carry the original error, line, column, line number and a prefix naming {U}', node=hs[0])
-    if only_parse:
-        chk.ok('C17.F', 'the location-prefix handler encloses only the parse of this include\'s text')
-    else:
-        chk.bad('C17.F', mod, func.name, f'try body of the parser-error handler has {len(parse_try.body)} statements',
-                'the handler that prefixes parser errors with this include\'s location also encloses other steps (e.g. the nested execution): a syntax error in a DEEPER include is re-wrapped '
-                'at every level and ends up naming the outermost include instead of the broken file', node=parse_try)
 
 
 def check_parser_side(chk):
@@ -264,47 +179,81 @@ def check_parser_side(chk):
         chk.bad('C17.P', pm.mod, 'parse_script', f'include order {urls}', 'merged includes must keep program order')
 
 
+def _inline_locals(func):
+    """single-assignment locals -> their defining expression text (one level), tuple targets of rpartition kept apart"""
+    defs, rpart = {}, {}
+    counts = {}
+    for n in walk_no_nested(func):
+        if isinstance(n, ast.Assign) and len(n.targets) == 1:
+            t = n.targets[0]
+            if isinstance(t, ast.Name):
+                counts[t.id] = counts.get(t.id, 0) + 1
+                defs[t.id] = norm(n.value)
+            elif isinstance(t, ast.Tuple) and isinstance(n.value, ast.Call) and isinstance(n.value.func, ast.Attribute) and n.value.func.attr == 'rpartition' \
+                    and len(t.elts) == 3 and all(isinstance(e, ast.Name) for e in t.elts) and n.value.args and const_str(n.value.args[0]) == '/':
+                rpart[(t.elts[0].id, t.elts[1].id)] = norm(n.value.func.value)
+    return {k: v for k, v in defs.items() if counts[k] == 1}, rpart
+
+
 def check_url_file_relative(chk):
     mod = chk.repo.module('options')
     func = mod.func('url_file_relative', 'C17.U')
     params = [a.arg for a in func.args.args]
     base, ref = params
-    steps = [s for s in func.body if not (isinstance(s, ast.Expr) and isinstance(s.value, ast.Constant))]
-    # expected shape: if URL(ref): return ref ; if ref.startswith('/'): return str(Path(ref)) ; if URL(base): return f'{base[:rfind+1]}{ref}' ; return os.path.join(dirname(base), str(Path(ref)))
+    defs, rpart = _inline_locals(func)
+
+    def text(e):
+        t = norm(e)
+        if isinstance(e, ast.Name) and e.id in defs:
+            return defs[e.id]
+        return t
+    # positively wrong: the reference is altered / normalised before it is appended
+    for n in ast.walk(func):
+        if isinstance(n, ast.Call) and isinstance(n.func, ast.Attribute) and isinstance(n.func.value, ast.Name) and n.func.value.id == ref \
+                and n.func.attr in ('lstrip', 'rstrip', 'strip', 'replace', 'removeprefix', 'removesuffix', 'split', 'lower', 'upper'):
+            chk.bad('C17.U', mod, func.name, norm(n)[:80],
+                    f'the relative reference is altered with .{n.func.attr}() before it is appended to the base: references such as ../x or .hidden resolve to a different location', node=n)
+            return
+        if isinstance(n, ast.Call) and (call_name(n) or '').split('.')[-1] in ('urljoin', 'normpath', 'urlsplit', 'urlparse', 'resolve'):
+            chk.bad('C17.U', mod, func.name, norm(n)[:80],
+                    f'{call_name(n)} normalises the location (collapses ../, drops the base for unknown schemes): with a URL base the result must be the base up to its last slash '
+                    f'followed by the reference, unmodified', node=n)
+            return
+    steps = [s for s in func.body if not (isinstance(s, ast.Expr) and isinstance(s.value, ast.Constant)) and not isinstance(s, ast.Assign)]
     if len(steps) != 4 or not all(isinstance(s, ast.If) for s in steps[:3]) or not isinstance(steps[3], ast.Return):
         raise Unrecognised('C17.U', 'url_file_relative is not a 3-test case table followed by a return', mod.rel)
 
     def is_url_test(t, var):
         return isinstance(t, ast.Call) and (norm(t) in (f're.match(_R_URL, {var})', f'_R_URL.match({var})'))
-    rets = [s.body[0] if isinstance(s, ast.If) else s for s in steps]
-    # the relative reference must appear unmodified in every result
-    for i, r in enumerate(rets):
-        if not isinstance(r, ast.Return):
-            raise Unrecognised('C17.U', 'case without a single return', mod.rel)
-        for n in ast.walk(r.value):
-            if isinstance(n, ast.Call) and isinstance(n.func, ast.Attribute) and isinstance(n.func.value, ast.Name) and n.func.value.id == ref \
-                    and n.func.attr in ('lstrip', 'rstrip', 'strip', 'replace', 'removeprefix', 'removesuffix', 'split', 'lower', 'upper'):
-                chk.bad('C17.U', mod, func.name, norm(n)[:80],
-                        f'the relative reference is altered with .{n.func.attr}() before it is appended to the base: references such as ../x or .hidden resolve to a different location', node=n)
+    rets = []
+    for s in steps:
+        if isinstance(s, ast.If):
+            r = [x for x in s.body if isinstance(x, ast.Return)]
+            if len(r) != 1 or s.orelse or any(not isinstance(x, (ast.Return, ast.Assign)) for x in s.body):
+                raise Unrecognised('C17.U', 'case without a single return', mod.rel)
+            rets.append(r[0])
+        else:
+            rets.append(s)
     t0, t1, t2 = steps[0].test, steps[1].test, steps[2].test
     c0 = is_url_test(t0, ref) and norm(rets[0].value) == ref
-    c1 = norm(t1) == f"{ref}.startswith('/')" and norm(rets[1].value) == f'str(Path({ref}))'
+    c1 = norm(t1) == f"{ref}.startswith('/')" and text(rets[1].value) == f'str(Path({ref}))'
     v2 = rets[2].value
     parts2 = []
     if isinstance(v2, ast.JoinedStr) and all(isinstance(x, ast.FormattedValue) for x in v2.values):
-        parts2 = [norm(x.value) for x in v2.values]
+        parts2 = [text(x.value) for x in v2.values]
     elif isinstance(v2, ast.BinOp) and isinstance(v2.op, ast.Add):
-        parts2 = [norm(v2.left), norm(v2.right)]
-    c2 = is_url_test(t2, base) and parts2 == [f"{base}[:{base}.rfind('/') + 1]", ref]
-    c3 = norm(rets[3].value) == f'os.path.join(os.path.dirname({base}), str(Path({ref})))'
-    for ok, desc, what in ((c0, 'URL reference -> unchanged', 'an absolute URL must be returned unchanged (tested first)'),
-                           (c1, 'absolute POSIX path -> unchanged (as an OS path)', 'an absolute path must be returned unchanged'),
-                           (c2, 'URL base -> base up to and including its last "/" + reference', 'with a URL base the result must be the base up to its last slash followed by the reference, unmodified'),
-                           (c3, 'path base -> dirname(base) joined with the reference', 'with a path base the result must be dirname(base) joined with the reference')):
+        parts2 = [text(v2.left), text(v2.right)]
+    c2 = is_url_test(t2, base) and (parts2 == [f"{base}[:{base}.rfind('/') + 1]", ref] or
+                                    (len(parts2) == 3 and parts2[2] == ref and rpart.get((parts2[0], parts2[1])) == base))
+    v3 = rets[3].value
+    c3 = isinstance(v3, ast.Call) and norm(v3.func) == 'os.path.join' and len(v3.args) == 2 and text(v3.args[0]) == f'os.path.dirname({base})' and text(v3.args[1]) == f'str(Path({ref}))'
+    results = ((c0, 'URL reference -> unchanged'), (c1, 'absolute POSIX path -> unchanged (as an OS path)'),
+               (c2, 'URL base -> base up to and including its last "/" + reference'), (c3, 'path base -> dirname(base) joined with the reference'))
+    for ok, desc in results:
         if ok:
             chk.ok('C17.U', 'url_file_relative: ' + desc)
-        elif not any(f.rule == 'C17.U' for f in chk.findings):
-            chk.bad('C17.U', mod, func.name, desc, what, node=func)
+        else:
+            chk.unrec('C17.U', f'url_file_relative: case `{desc}` not recognised', mod.rel)
     rg = mod.const('_R_URL', 'C17.U')
     if rg.pattern == '^[a-z]+:':
         chk.ok('C17.U', 'URL test: scheme regex ^[a-z]+:')
@@ -325,29 +274,47 @@ def check_cli(chk):
     else:
         chk.bad('C17.C', mod, 'main', norm(dicts[0])[:140], 'the CLI must configure the system prefix, the include-aware fetch function and a urlFn relative to the script file', node=dicts[0])
     f = mod.func('_fetch_include', 'C17.C')
+    P = '_FETCH_INCLUDE_PREFIX'
     tests = [s for s in f.body if isinstance(s, ast.If)]
-    if len(tests) == 1 and norm(tests[0].test) == "url.startswith(_FETCH_INCLUDE_PREFIX)" and 'url[len(_FETCH_INCLUDE_PREFIX):]' in norm(tests[0].body[0]) \
-            and "files('bare_script.include')" in ' '.join(norm(s) for s in tests[0].body) and norm(f.body[-1]) == 'return fetch_read_write(request)':
-        chk.ok('C17.C', '_fetch_include serves exactly the URLs starting with the system prefix from the package include directory and delegates the rest')
+    prefix_tests = [s for s in tests if P in norm(s.test)]
+    if len(prefix_tests) != 1:
+        raise Unrecognised('C17.C', f'_fetch_include: {len(prefix_tests)} tests of the system prefix', mod.rel)
+    t = prefix_tests[0]
+    tt = norm(t.test)
+    uvar = next((k for k in ('url',) if k in tt), None)
+    pos = tt == f'url.startswith({P})'
+    neg = tt == f'not url.startswith({P})'
+    if not (pos or neg):
+        if 'startswith' not in tt:
+            chk.bad('C17.C', mod, '_fetch_include', tt[:80], 'the CLI fetch function must serve exactly the URLs that START WITH the system prefix from the package include directory', node=t)
+        else:
+            chk.unrec('C17.C', f'_fetch_include: prefix test {tt[:80]} not recognised', mod.rel)
+        return
+    rest = f.body[f.body.index(t) + 1:]
+    sys_branch, other_branch = (t.body, (t.orelse or rest)) if pos else ((t.orelse or rest), t.body)
+    sys_txt = ' '.join(norm(s) for s in sys_branch)
+    other_txt = ' '.join(norm(s) for s in other_branch)
+    strip_ok = f'url[len({P}):]' in sys_txt or f'url.removeprefix({P})' in sys_txt
+    if "files('bare_script.include')" in sys_txt and strip_ok and 'return fetch_read_write(request)' in other_txt and 'fetch_read_write' not in sys_txt:
+        chk.ok('C17.C', '_fetch_include serves exactly the URLs starting with the system prefix from the package include directory (prefix removed) and delegates the rest')
+    elif "files('bare_script.include')" in other_txt or 'fetch_read_write' in sys_txt:
+        chk.bad('C17.C', mod, '_fetch_include', tt[:80], 'the CLI fetch function serves the wrong branch: system-prefix URLs must come from the package include directory, all others from fetch_read_write', node=t)
     else:
-        chk.bad('C17.C', mod, '_fetch_include', norm(tests[0].test)[:80] if tests else 'no prefix test', 'the CLI fetch function must serve exactly the system-prefix URLs from the package include directory', node=f)
+        chk.unrec('C17.C', '_fetch_include: branches not recognised', mod.rel)
 
 
 def run(chk):
-    chk.rule('C17.R', 'resolution table; one resolved-location variable feeds fetch, messages and the nested urlFn', floor=3)
+    chk.rule('C17.R', 'resolution table: system+prefix -> relative to the prefix; urlFn; unchanged (abstract execution, E6s)', floor=4)
     chk.rule('C17.I', 're-based urlFn only in the copy handed to the nested run', floor=1)
-    chk.rule('C17.O', 'per include: resolve, fetch, parse, lint, execute once, in order; nested call result discarded', floor=3)
-    chk.rule('C17.G', 'included scripts run in global scope', floor=1)
-    chk.rule('C17.F', 'failure reporting names the resolved location; prefix handler encloses only the parse', floor=4)
+    chk.rule('C17.O', 'per include, in order: resolve, fetch, parse, lint, execute; nested includes re-based on the resolved location', floor=5)
+    chk.rule('C17.G', 'included scripts run in global scope; statements counted on the run\'s counter', floor=2)
+    chk.rule('C17.F', 'failure reporting names the resolved location of the failing file only', floor=6)
     chk.rule('C17.P', 'parser side: merge adjacent includes, system flag, URL un-escaping (E6)', floor=5)
     chk.rule('C17.U', 'url_file_relative case table; the reference is appended unmodified', floor=4)
     chk.rule('C17.C', 'CLI include loader configuration', floor=2)
     chk.assumptions += ['os.path / pathlib behave as documented; fetchFn/urlFn are host functions']
-    U = chk.guard('C17.R', check_resolution, chk)
+    chk.guard('C17.R', check_include_sim, chk)
     chk.guard('C17.I', check_isolation, chk)
-    if U:
-        chk.guard('C17.O', check_order, chk, U)
-        chk.guard('C17.F', check_failures, chk, U)
     chk.guard('C17.P', check_parser_side, chk)
     chk.guard('C17.U', check_url_file_relative, chk)
     chk.guard('C17.C', check_cli, chk)
